@@ -481,6 +481,47 @@ theorem C23_forloop_tuples_nodup (ds : List (List Int)) (h : ∀ d ∈ ds, d.Nod
 theorem C23_forloop_range_vals (r : Range) : Iter.vals true (.range r) = .ok r.seq := by
   simp [Iter.vals, Range.seq]
 
+/-- `forLoop::tile`: a range loop tiled by `@tile(T, @outer, @inner)` (check on) visits exactly the values of the
+    plain loop, in order, once @tile scales its inner bound — ascending ranges -/
+theorem C23_tiled_range_up (s e st T : Int) (hst : 0 < st) (hT : 1 ≤ T) :
+    tiledVals true s e st T = forVals s e st := by
+  obtain ⟨n, rfl⟩ : ∃ n : Nat, T = (n : Int) := ⟨T.toNat, by omega⟩
+  have hn : 0 < n := by omega
+  have hB : 0 < (n : Int) * st := Int.mul_pos (by omega) hst
+  unfold tiledVals
+  rw [if_pos hst]
+  simp only [if_true]
+  rw [← filter_flatMap', forVals_to_aligned s e _ hB, chunk_flatMap_step st hst n hn _ s,
+    filter_lt_forVals _ st e hst _ s rfl]
+  have := upCount_cover s e _ hB
+  rw [show min (s + (upCount s e ((n : Int) * st) : Int) * ((n : Int) * st)) e = e by omega]
+
+/-- … and descending ranges (mirror image) -/
+theorem C23_tiled_range_down (s e st T : Int) (hst : st < 0) (hT : 1 ≤ T) :
+    tiledVals true s e st T = forVals s e st := by
+  have hB : T * st < 0 := by
+    have := Int.mul_pos (show 0 < T by omega) (show 0 < -st by omega)
+    rw [Int.mul_neg] at this; omega
+  have up := C23_tiled_range_up (-s) (-e) (-st) T (by omega) hT
+  unfold tiledVals at up ⊢
+  rw [if_pos (by omega)] at up
+  rw [if_neg (by omega)]
+  simp only [if_true] at up ⊢
+  rw [forVals_neg s e st hst, ← up, List.map_flatMap, forVals_neg s e (T * st) hB, List.flatMap_map]
+  have e1 : -(T * st) = T * -st := by rw [Int.mul_neg]
+  rw [e1]
+  congr 1
+  funext blk
+  have e2 : -(-blk + T * st) = blk + T * -st := by rw [Int.mul_neg]; omega
+  rw [forVals_neg (-blk) (-blk + T * st) st hst, Int.neg_neg, e2, List.filter_map]
+  congr 1
+  apply List.filter_congr
+  intro x _
+  simp only [Function.comp_apply, decide_eq_decide]
+  omega
+
+example : tiledVals true 10 0 (-3) 2 = [10, 7, 4, 1] ∧ tiledVals false 0 20 2 4 = [0, 2, 8, 10, 16, 18] := by decide
+
 /-- F61 before the repair: a descending range made the generated loop run away -/
 theorem C23_forloop_descending_ran_away : Iter.vals false (.range ⟨5, 0, -1⟩) = .trap := by decide
 
